@@ -40,7 +40,7 @@ func init() {
 			"(calls reaching kv.secrets / secret fields, or direct accesses) is edge-dominated by a SUCCESSFUL permission check for the documented action, " +
 			"made for the operation's own Caller parameter and for the same name value that is then accessed (R-C01-1); checkAndLog can return nil only on paths where " +
 			"Rules.Allow(action, secret) on its own parameters returned true, and its denial carries ErrAccessDenied (R-C01-2); List appends only entries read under a per-name " +
-			"Allow(info,name) and SecretInfo cannot carry value bytes (R-C01-4); read-only operations reach no write of persistent state (R-C01-5); the server hands the WhoIs identity " +
+			"Allow(info,name) and SecretInfo cannot carry value bytes (R-C01-4); read-only operations reach no write of persistent state (R-C01-5); the matching semantics the grants rely on are those decided for C07 (R-C01-8, same rules) and every access to the secrets map inside the store uses the very name that was checked as key (R-C01-9); the server hands the WhoIs identity " +
 			"through unchanged to every db.DB call and builds no Caller of its own (R-C01-6).  Because no state access precedes the decision, refusal cannot depend on existence (R-C01-3).",
 		NotDecided:  "What Rules.Allow answers on concrete strings (C07); behaviour over concrete databases and rule sets.",
 		Trusted:     append([]string{"multierr.New / errors.Join return nil iff every element is nil", "package-level sentinel errors are non-nil"}, commonTrusted...),
@@ -165,6 +165,11 @@ func runC01(c *eng.Ctx, tier string) {
 
 	// R-C01-6 identity pass-through
 	c01Identity(c, d)
+
+	// R-C01-8: "a pattern matching that exact secret name": the matching rules of C07
+	include(c, "R-C01-8", c07Core)
+	// R-C01-9: the name that was checked is the name that is accessed, down to the map key
+	include(c, "R-C01-9", func(sc *eng.Ctx) { secretsKeyIsOwnName(sc, "R-C02-7") })
 }
 
 func returnsOnlyStrings(cc *ssa.CallCommon) bool {
